@@ -21,7 +21,7 @@ namespace TAO_PEGTL_NAMESPACE::internal::verif
       void ( *bump_observer )( const void* input, std::size_t count ) = nullptr;
       // buffer_input: window after every require()/discard().
       void ( *buffer_window )( const void* input, const char* buffer, std::size_t capacity, const char* current, const char* end ) = nullptr;
-      // buffer_input: every require( amount ) that is not already satisfied, before anything else happens.
+      // buffer_input: every require( amount ), satisfied or not ( occupied >= amount ), before anything else happens.
       void ( *buffer_require )( const void* input, std::size_t offset_in_buffer, std::size_t amount, std::size_t capacity, std::size_t occupied ) = nullptr;
       // buffer_input: every call of the reader.
       void ( *buffer_read )( const void* input, std::size_t requested, std::size_t got ) = nullptr;
